@@ -358,8 +358,16 @@ class ExprMixin:
     def ev_Attribute(self, e, st):
         # module attributes used as values
         if isinstance(e.value, ast.Name) and e.value.id not in st.locals:
-            if e.value.id in ('copy', 'json', 'logging', 'yaml', 'os', 'zipfile'):
+            if e.value.id in ('copy', 'json', 'logging', 'yaml', 'zipfile'):
                 return SV('func', py=e.value.id + '.' + e.attr)
+            if e.value.id == 'os':
+                return SV('mod', py='os.' + e.attr)
+        if isinstance(e.value, ast.Attribute) and isinstance(e.value.value, ast.Name) and e.value.value.id == 'os' \
+                and e.value.value.id not in st.locals and e.value.attr == 'path':
+            return SV('func', py='os.path.' + e.attr)
+        if isinstance(e.value, ast.Name) and e.value.id not in st.locals and e.value.id in self.reg.class_consts \
+                and e.attr in self.reg.class_consts[e.value.id]:
+            return self.reg.class_consts[e.value.id][e.attr]
         o = self.ev(e.value, st)
         return self.get_attr(o, e.attr, st)
 
@@ -387,7 +395,7 @@ class ExprMixin:
         ty = self.reg.schema.attr_type(cls, attr)
         if ty is None:
             raise Unsupported('attribute %s of %s not in schema' % (attr, cls))
-        sv = from_sort(st.h.f(attr, a), ty)
+        sv = from_sort(st.h.f(self.reg.schema.storage(cls, attr), a), ty)
         self.assume_type(sv, st)
         return sv
 
